@@ -38,7 +38,8 @@ THEOREMS = ['C05_rest_isothermal_steady', 'C05_primeq_column_refines_spec', 'C05
             'C05_one_layer_formulas_balanced', 'C05_multi_layer_formulas_balanced', 'C05_differential_ring_instance',
             'C05_solid_body_steady_series', 'C05_sw_solid_body_series', 'C05_rest_isothermal_steady_R',
             'C05_hyps_satisfiable', 'C05_modal_hyps_satisfiable', 'C05_rest_moist_hyps_satisfiable',
-            'C05_model_is_source', 'C05_gen_primeq_complete']
+            'C05_model_is_source', 'C05_gen_primeq_complete',
+            'C05_whole_state_rest_isothermal_steady', 'C05_whole_state_rest_hyps_satisfiable']
 LEVEL = 'proof'
 LEVEL_TEXT = ('machine-checked theorems (Coq), every field, every layer count, every level set: the nodal column algebra of '
               'the implementation (explicit + implicit) equals the documented vertical discretisation of the continuous '
@@ -343,6 +344,7 @@ GRIDS = {'g9': dict(M=8, L=9, I=25, J=13), 'g7': dict(M=6, L=7, I=19, J=10), 'g1
          'gm6': dict(M=6, L=9, I=25, J=13),                                         # total_wavenumbers > longitude_wavenumbers + 1
          'gw': dict(M=8, L=9, I=96, J=13),                                          # wide
          'gt': dict(M=3, L=9, I=4, J=40),
+         't4': dict(M=3, L=4, I=8, J=4), 't3': dict(M=2, L=3, I=4, J=3),                 # tiny: the exact whole-state model is affordable
          'gt300': dict(M=5, L=9, I=8, J=300), 'gt520': dict(M=4, L=9, I=6, J=520)}        # tall: hundreds of latitudes                                           # tall, longitude_nodes = 2 (M - 1): zonal states only
 _nodes_ok = {}
 _cache = {}
@@ -660,6 +662,80 @@ def r_pe_rest(ctx, a):
     steady(ctx, f'{kind}: resting isothermal atmosphere over orography: surface pressure tendency = 0', tot['log_surface_pressure'], term)
     for n, v in tot['tracers'].items():
         steady(ctx, f'{kind}: resting isothermal atmosphere: tracer tendency = 0', v, term)
+
+
+# ---------------------------------------------------------------------------
+# the EXECUTED whole-state model at rest (C05_whole_state_rest_isothermal_steady)
+# ---------------------------------------------------------------------------
+def r_whole_state_rest(ctx, a):
+    """resting isothermal atmosphere on a tiny real grid: the real explicit_terms + implicit_terms against the theorem's
+    conclusion (zero / g (lap orog - clip lap orog)), and the extracted whole-state model (Model/PrimEqFull.v) on the same state"""
+    m = dyn.mods(); pe = m['pe']
+    specs = specs_of(a['consts']); b = a['b']; K = len(b) - 1
+    g, x, y, z = grid_of(a['grid'], a.get('radius'))
+    c = dyn.coords(g, b)
+    M, L = g.longitude_wavenumbers, g.total_wavenumbers
+    I, Jn = g.nodal_shape; R = g.modal_shape[0]
+    basis = g.spherical_harmonics.basis
+    tf, tp, tw = np.asarray(basis.f), np.asarray(basis.p), np.asarray(basis.w)
+    ta, tb = (np.asarray(t) for t in g._derivative_recurrence_weights)
+    sec2 = np.asarray(g.sec2_lat); sin_lat = np.asarray(g.nodal_axes[1])
+    ok_shapes = (tuple(g.modal_shape) == (2 * M - 1, L) and tf.shape == (I, R) and tp.shape == (R, Jn, L) and tw.shape == (Jn,)
+                 and ta.shape == (R, L) and tb.shape == (R, L) and sec2.shape == (Jn,) and sin_lat.shape == (Jn,))
+    ctx.exact('whole-state rest: table shapes of the reference layout', bool(ok_shapes), True)
+    if not ok_shapes: return
+    rng = np.random.default_rng([a['seed'], 14])
+    # random orography inside the triangular mask; with top=1 also in the clipped total wavenumber L-1 (the residual clause)
+    oro = rng.integers(-64, 65, size=tuple(g.modal_shape)).astype(np.float64) / 64 * a['oro_amp']
+    ll = np.arange(L)[None, :]
+    oro = oro * np.asarray(g.mask) * ((ll <= L - 1) if a.get('top') else (ll < L - 1))
+    T0 = float(a['T0']); tref = np.full(K, T0)
+    one = one_modal(g)
+    lnps = (a['c'] * one - specs.g * oro / (specs.R * T0))
+    zero = np.zeros((K,) + tuple(g.modal_shape))
+    eq = dyn.pe_equation('dry', c, specs, tref, oro)
+    st = pe.State(zero, zero, zero, lnps[None], {})
+    ex = eq.explicit_terms(st); im = eq.implicit_terms(st)
+    fe = [np.asarray(getattr(ex, n), dtype=np.float64) for n in ('vorticity', 'divergence', 'temperature_variation', 'log_surface_pressure')]
+    fi = [np.asarray(getattr(im, n), dtype=np.float64) for n in ('vorticity', 'divergence', 'temperature_variation', 'log_surface_pressure')]
+    lam = np.asarray(g.laplacian_eigenvalues, dtype=np.float64); LAM = float(np.max(np.abs(lam)))
+    lap_oro = oro * lam[None, :]
+    clip_lap = lap_oro * (np.arange(L) < L - 1)[None, :]
+    # magnitude of the terms summed: g lap(orog), lap(R T0 lnps) including the horizontally constant part R T0 c times the eigenvalue
+    term = LAM * (specs.g * float(np.max(np.abs(oro))) + specs.R * T0 * float(np.max(np.abs(lnps)))) + 1e-300
+    resid = specs.g * (lap_oro - clip_lap)
+    tot = [fe[k] + fi[k] for k in range(4)]
+    ctx.oracle('whole-state rest: the implicit orographic term is exercised', float(np.max(np.abs(fi[1]))) > 0.01 * specs.g * float(np.max(np.abs(lap_oro))) or a['oro_amp'] == 0,
+               {'implicit': float(np.max(np.abs(fi[1])))})
+    if a.get('top'):
+        ctx.oracle('whole-state rest: the residual clause is exercised (orography has content in the clipped wavenumber)', float(np.max(np.abs(resid))) > 0, None)
+    ctx.oracle_close('whole-state rest: divergence tendency = g (lap orog - clip lap orog) on every coefficient', tot[1], resid[None] + 0 * tot[1], scale=term, tol_rel=1e-10)
+    steady(ctx, 'whole-state rest: divergence tendency = 0 below the clipped total wavenumber', tot[1][..., :L - 1], term)
+    steady(ctx, 'whole-state rest: vorticity tendency = 0', tot[0], term)
+    steady(ctx, 'whole-state rest: temperature tendency = 0', tot[2], specs.kappa * T0 * term + 1e-300)
+    steady(ctx, 'whole-state rest: surface pressure tendency = 0', tot[3], term)
+    # ---- the extracted whole-state model on the same state ----
+    ls = np.log(c.vertical.centers)
+    ints = [M, L, I, Jn, K, 0]
+    base = [tf.ravel(), tp.ravel(), tw, ta.ravel(), tb.ravel(), sec2, sin_lat,
+            [g.radius, specs.angular_velocity, specs.g, specs.R, specs.kappa], ls, b, tref, oro.ravel(),
+            zero.ravel(), zero.ravel(), zero.ravel(), lnps.ravel(), []]
+    n3 = K * R * L
+    def split(mo):
+        return [mo[:n3], mo[n3:2 * n3], mo[2 * n3:3 * n3], mo[3 * n3:3 * n3 + R * L]]
+    me = split(ctx.model.call(30, ints, base)); mi = split(ctx.model.call(31, ints, base))
+    names = ['vorticity', 'divergence', 'temperature_variation', 'log_surface_pressure']
+    sc = [term, term, specs.kappa * T0 * term + 1e-300, term]
+    for k, n_ in enumerate(names):
+        ctx.corr('whole-state rest (composed model): explicit_terms ' + n_, fe[k], me[k], scale=sc[k])
+        ctx.corr('whole-state rest (composed model): implicit_terms ' + n_, fi[k], mi[k], scale=sc[k])
+    # the theorem's conclusion on the MODEL outputs, exactly up to the rounding of the float lnps handed to it
+    mtot = np.array([float(u_ + v_) for u_, v_ in zip(me[1], mi[1])]).reshape(tot[1].shape)
+    ctx.oracle_close('whole-state rest: the model total divergence tendency is the stated residual', mtot, resid[None] + 0 * mtot, scale=term, tol_rel=1e-10)
+    for k in (0, 2, 3):
+        ctx.exact('whole-state rest: model explicit+implicit %s tendency exactly zero' % names[k],
+                  all(u_ + v_ == 0 for u_, v_ in zip(me[k], mi[k])), True)
+    ctx.count('whole_state_rest:%s K=%d top=%d' % (a['grid'], K, int(bool(a.get('top')))))
 
 
 def r_pe_rest_states(ctx, a):
@@ -1316,6 +1392,13 @@ def generate(ctx):
                                  u=sr(K), v=sr(K), vort=sr(K), div=sr(K), Tp=sr(K, -40, 40, 4), q=sr(K, 0, 8, 256), tref=sr(K, 800, 1200, 4),
                                  node=sr(5, -12, 12, 8)[:2] + [float(rng.integers(8, 40)) / 8] + sr(2, -12, 12, 8),
                                  wup=[(-1) ** j * float(rng.integers(1, 17)) / 8 for j in range(max(K - 1, 0))])
+    # the executed whole-state model at rest (tiny real grids: the exact model is affordable)
+    for r in range(3 if quick else 8):
+        consts, rad = _consts(rng, r + 1)
+        K = 2 + r % 2
+        yield 'whole_state_rest', dict(grid='t4' if r % 4 != 3 else 't3', consts=consts, radius=rad, b=lev(K), seed=int(rng.integers(1 << 30)),
+                                       oro_amp=float([0.02, 0.05, 0.01][r % 3]) * (1000.0 if consts is None else 1.0), c=float(rng.integers(-8, 9)) / 4,
+                                       T0=float(rng.integers(200, 320)) + 0.25 * int(rng.integers(0, 4)), top=int(r % 3 == 1))
     for K in ([1, 3] if quick else [1, 2, 3, 5, 8]):
         yield 'geopotential', dict(grid='g7', b=lev(K), tref=prof(K), R=[287.0, 1.0, 0.3][K % 3], g=[9.80616, 1.0, 72.0][K % 3],
                                    seed=int(rng.integers(1 << 30)), coefs=[[0, 0], [0, 2], [3, 2], [2, 1]])
@@ -1324,4 +1407,4 @@ def generate(ctx):
 RUNNERS = {'pe_pointwise': r_pe_pointwise, 'sw_pointwise': r_sw_pointwise, 'pe_rest': r_pe_rest, 'pe_rest_states': r_pe_rest_states,
            'pe_solid_body': r_pe_solid_body, 'sw_states': r_sw_states, 'sw_balanced': r_sw_balanced, 'sw_barotropic': r_sw_barotropic,
            'jw': r_jw, 'column': r_column, 'geopotential': r_geopotential,
-           'pe_forms': r_pe_forms, 'linear_top': r_linear_top}
+           'pe_forms': r_pe_forms, 'linear_top': r_linear_top, 'whole_state_rest': r_whole_state_rest}
